@@ -50,6 +50,30 @@ HAS_HDC_CALLEES = {"autocorr", "autocorr_tyx", "autocorr_1d", "mann_kendall_tren
                    "ws2dgu", "ws2dpgu", "ws2doptv", "ws2doptvp", "ws2doptvplc", "ws2dwcv", "ws2dwcvp"}
 
 
+def _amp(sample):
+    pos = np.asarray(sample, dtype=np.float64).ravel()
+    pos = pos[(pos > 0) & (pos != -9999)]
+    if pos.size == 0:
+        return 0.0  # nothing to fit: both worlds return nodata
+    if pos.size < 2 or np.ptp(pos) == 0:
+        return np.inf  # s is exactly 0 in float64 but rounding noise in single precision: undetermined
+    s_stat = math.log(pos.mean()) - np.log(pos).mean()
+    return 4 * 2.0 ** -23 * max(1.0, float(np.max(np.abs(np.log(pos))))) / max(s_stat, 1e-300)
+
+
+def fit_amplification(name, args):
+    """Worst conditioning factor of the gamma fits a call performs (float32 inputs)."""
+    x = np.asarray(args[0])
+    if name == "gammafit":
+        return _amp(x)
+    if name == "gammastd":
+        return _amp(x[args[2]:args[3]])
+    if name == "gammastd_yxt":
+        return max(_amp(x[i, j, args[2]:args[3]]) for i in range(x.shape[0]) for j in range(x.shape[1]))
+    groups, k, cal = np.asarray(args[1]), int(args[2]), np.asarray(args[4])
+    return max(_amp(x[groups == g][cal[g, 0]:cal[g, 1]]) for g in range(k))
+
+
 def close(a, b, rtol, atol=1e-12):
     a = np.asarray(a, dtype=np.float64)
     b = np.asarray(b, dtype=np.float64)
@@ -131,16 +155,10 @@ def compare_case(R, p, dtype, cls, args, deep=False):
     rtol = 5e-6 if dtype == "float32" else 1e-9
     atol = 1e-12
     if dtype == "float32" and name in ("gammafit", "gammastd", "gammastd_yxt", "gammastd_grp"):
-        # single-precision logarithms in the compiled fit: the error of alpha is amplified by 1/s (near-constant data)
-        pos = np.concatenate([np.asarray(a, dtype=np.float64).ravel() for a in args[:1]])
-        pos = pos[(pos > 0) & (pos != -9999)]
-        if pos.size < 2 or np.ptp(pos) == 0:
-            # s is exactly 0 in float64 but single-precision rounding noise here: the fit is undetermined
-            R.count("float32_fit_ill_conditioned_excluded")
-            return
-        if pos.size >= 2 and np.ptp(pos) > 0:
-            s_stat = math.log(pos.mean()) - np.log(pos).mean()
-            amp = 4 * 2.0 ** -23 * max(1.0, float(np.max(np.abs(np.log(pos))))) / max(s_stat, 1e-300)
+        # single-precision logarithms in the compiled fit: the error of alpha is amplified by 1/s (near-constant data);
+        # s is taken over exactly the samples each fit uses (calibration window, per pixel / per group)
+        amp = fit_amplification(name, args)
+        if True:
             if amp > 1e-3:
                 R.count("float32_fit_ill_conditioned_excluded")
                 return
@@ -151,6 +169,14 @@ def compare_case(R, p, dtype, cls, args, deep=False):
                 # inputs are compared inside |SPI| <= 3 only; the tails are held to the definition by C07's interval oracle
                 lim = 3.0 if name == "gammastd" else 3000.0
                 keep = [np.abs(np.asarray(i, dtype=np.float64)) <= lim for i in iflat]
+                # NumPy's scalar promotion evaluates float32 / python-float in single precision: x / beta underflows for
+                # positive x below ~1e-30 in the interpreted run only (the compiled code divides in double precision);
+                # single-precision accuracy cannot be claimed in the underflow range
+                xin = np.asarray(args[0], dtype=np.float64)
+                tiny = (xin > 0) & (xin < 1e-30)
+                if tiny.any() and all(k.shape == tiny.shape for k in keep):
+                    R.count("float32_underflow_cells_skipped", int(tiny.sum()))
+                    keep = [k & ~tiny for k in keep]
                 R.count("float32_tail_cells_skipped", int(sum((~k).sum() for k in keep)))
                 cflat = [np.where(k, c, 0) for c, k in zip(cflat, keep)]
                 iflat = [np.where(k, i, 0) for i, k in zip(iflat, keep)]
@@ -172,6 +198,29 @@ def compare_case(R, p, dtype, cls, args, deep=False):
                 j = int(np.argmax(~np.isclose(np.asarray(c, dtype=float), np.asarray(i, dtype=float), rtol=rtol, atol=1e-12, equal_nan=True))) if c.size > 1 else 0
                 R.violation(key, f"{name}({dtype}, {cls}): output {k} differs: compiled {np.asarray(c).ravel()[j]!r} vs interpreted {np.asarray(i).ravel()[j]!r}" + (f" (NumPy integer overflow in the interpreted run: {overflow[0][:60]})" if overflow else ""), case)
                 return
+    if lam_differs and name == "ws2doptvplc_tyx":
+        # per-pixel lambdas: a differing pixel is excused only when our own replica of its V-curve is noise / tied
+        from ..oracles import whittaker as W
+        from .. import smooth as S
+        from . import c04
+        cube, pp, nd = args
+        lc_c, lc_i = np.asarray(cflat[1], dtype=float), np.asarray(iflat[1], dtype=float)
+        bad = np.argwhere(np.abs(lc_c - lc_i) > 1e-12 * np.maximum(np.abs(lc_c), 1e-300))
+        for a_, b_ in bad:
+            y = np.asarray(cube[:, a_, b_], dtype=float)
+            w = W.valid_eq(y, nd)
+            ycl = np.where(w > 0, y, 0.0)
+            lcv = float(S.K("autocorr_1d")(np.ascontiguousarray(cube[:, a_, b_]), nd))
+            g = c04.grid_for_lc(lcv)
+            v1 = W.vcurve(ycl, w, g, S.ws2d_solver, p=float(pp))
+            k1, _, _ = c04.find_mid(float(lc_c[a_, b_]), g)
+            k2, _, _ = c04.find_mid(float(lc_i[a_, b_]), g)
+            if c04.is_degenerate(v1, ycl, float(pp)) or S.rel_tied(float(v1["v"][k1]), float(v1["v"][k2]), 1e-9):
+                R.count("lambda_criterion_tie_or_noise")
+                continue
+            R.violation(f"C13:lambda:{name}", f"{name}: pixel ({a_},{b_}) compiled lambda {lc_c[a_, b_]:.9g}, interpreted {lc_i[a_, b_]:.9g} (criterion not tied)", case)
+            return
+        return
     if lam_differs:
         # selection kernels: excused only by a criterion tie / non-finite criterion (tapped from the interpreted run)
         loc = tap.ret[-1] if tap and tap.ret else {}
@@ -309,7 +358,7 @@ def shard_special(spec, R):
 
 def plan(tier, seed):
     q = tier == "quick"
-    specs = [{"kind": "programs", "group": g, "reps_min": 2, "reps_edge": 6 if q else 40, "reps_random": 10 if q else 100, "reps_deep": 3 if q else 12, "budget_s": 150 if q else 2400} for g in range(len(GROUPS))]
+    specs = [{"kind": "programs", "group": g, "reps_min": 2, "reps_edge": 6 if q else 250, "reps_random": 10 if q else 700, "reps_deep": 3 if q else 40, "budget_s": 150 if q else 2400} for g in range(len(GROUPS))]
     specs.append({"kind": "special", "points": 3000 if q else 10000, "mp_points": 60 if q else 400})
     return specs
 
